@@ -397,11 +397,12 @@ CONC_SCEN = {
     22: ([0, 0], [O('set', 1, 11), O('set', 2, 21), O('items')]),
     23: ([10, 0], [O('set', 2, 21), O('open')]),
     24: ([10, 0], [O('set', 2, 21), O('open'), O('load')]),
+    25: ([10, 0], [O('set', 1, 11), O('open')]),
     26: ([10, 20], [O('clear'), O('del', 2)]),
     27: ([0, 0], [O('set', 1, 11), O('set', 1, 12)]),
     28: ([10, 0], [O('set', 1, 11), O('set', 1, 12)]),
 }
-DIR_SCEN = [11, 12, 13, 14, 15, 16, 17, 18, 19, 20, 21, 22, 26, 27, 28]
+DIR_SCEN = [11, 12, 13, 14, 15, 16, 17, 18, 19, 20, 21, 22, 23, 25, 26, 27, 28]
 SQL_SCEN = DIR_SCEN
 FILE_SCEN = [12, 13, 14, 15, 16, 18, 20, 23, 24]      # (writer/writer is promised for directory and SQL archives only)
 
@@ -708,7 +709,7 @@ def check_C14(tier):
         rng.shuffle(orders)
         cap = (200 if thorough else 12) if b.startswith('sql') else (40 if thorough else 3)
         ksets = ['str']
-        if b == 'dir' and sid in (16, 17, 18, 19, 21, 27, 28):
+        if b == 'dir' and sid in (16, 17, 18, 19, 21, 23, 25, 27, 28):
             # an entry is replaced or removed while another process looks: EVERY placement of the other operation between
             # two real steps of the writer (all orders with at most two switches), for keys with and without an input file
             cap = max(cap, 40)
